@@ -384,7 +384,10 @@ class XMLFormatter(GraphtageFormatter):
     def print_XMLElement(self, printer: Printer, node: XMLElement):
         printer.write('<')
         self.print(printer, node.tag)
-        if node.attrib:
+        # an element without attributes can still have attributes inserted into it
+        if node.attrib or (
+            isinstance(node.attrib, EditedTreeNode) and any(e.has_non_zero_cost() for e in node.attrib.edit_list)
+        ):
             self.print(printer, node.attrib)
         if node.text is None and isinstance(node, EditedTreeNode) and isinstance(node.edit, XMLElementEdit) \
                 and isinstance(node.edit.text_edit, Insert):
